@@ -21,7 +21,7 @@ func init() {
 			StatesMean:  "distinct (expression, rendering) cases; transitions = real Next calls",
 			Assumptions: []string{"small-scope hypothesis on expression size", "operand alphabet as listed (values outside it are not explored)", "numbers compared with == (NaN equal to NaN, sign of zero ignored)"},
 		},
-		QuickBudget: 70 * time.Second, ThoroughBudget: 14 * time.Minute, CrashIsViolation: true,
+		QuickBudget: 180 * time.Second, ThoroughBudget: 14 * time.Minute, CrashIsViolation: true,
 		Run: runC02,
 	})
 }
